@@ -44,6 +44,8 @@ RemoveVerdict(e) ==
   ELSE IF \E i \in 1..Len(e.exists) : e.exists[i][2] # (IF InSeq(e.exists[i][1], PidList(want)) THEN 1 ELSE 0) THEN "pid-exists"
   ELSE ""
 Verdict(e) == IF e.panic # "" THEN "panic"
+              ELSE IF ~e.earlier_same THEN "packets-returned-earlier-changed-by-a-later-call"
+              ELSE IF e.op = "disturb" THEN ""    \* a call made only for its after-effects on the calls that follow
               ELSE IF e.op = "filter" THEN FilterVerdict(e)
               ELSE IF e.op = "remove" THEN RemoveVerdict(e)
               ELSE "harness-unknown-op"
